@@ -114,6 +114,18 @@ fn heap_ok(w: &World) -> bool {
     }
     ok
 }
+/// is_terminated() is true exactly for the futures that completed -- also for futures nobody is polling right now
+fn terminated_exact(w: &World, st: &[u8; NT], skip: usize) -> bool {
+    let mut ok = true;
+    let mut i = 0;
+    while i < NT {
+        if i != skip && w.futs[i].is_terminated() != (st[i] == 3) {
+            ok = false;
+        }
+        i += 1;
+    }
+    ok
+}
 fn min_registered(w: &World) -> Option<u64> {
     let mut m: Option<u64> = None;
     let mut i = 0;
@@ -135,6 +147,7 @@ fn check_poll(st: [u8; NT], exp: [u64; NT]) {
     let st = w.st;
     unsafe { link(&mut w) };
     assert!(heap_ok(&w));
+    assert!(terminated_exact(&w, &st, NT), "[C17] is_terminated() is false for every future that has not completed (also one already expired but not yet polled)");
     kani::assume(st[i] != 3);
     let wk = kit::waker(NT + kit::any_lt(2));
     let mut cx = Context::from_waker(&wk);
@@ -206,6 +219,7 @@ fn check_expirations(st: [u8; NT], exp: [u64; NT]) {
         k += 1;
     }
     assert!(heap_ok(&w), "[C01] heap consistent after check_expirations()");
+    assert!(terminated_exact(&w, &st, NT), "[C17] check_expirations() terminates no future: an expired timer is not terminated until its poll returned Ready");
     assert!(w.svc.next_expiration() == min_registered(&w), "[C15] next_expiration() afterwards is the smallest remaining deadline");
 }
 
@@ -229,6 +243,17 @@ fn delay_is_deadline_now_plus_d_saturating() {
     assert!(svc.deadline_from_now(d) == expect, "[C15] delay(d) means deadline(now + d), saturating");
     let f = LocalTimer::delay(&svc, d);
     assert!(f.wait_node.expiry == expect && !f.is_terminated(), "[C15] [C17] delay() creates a live timer with that deadline");
+    core::mem::forget(f);
+}
+
+#[kani::proof]
+fn fresh_timer_future_is_unregistered() {
+    let svc = Svc::new(&CLOCK);
+    let ts: u64 = kani::any();
+    let f = LocalTimer::deadline(&svc, ts);
+    assert!(!f.is_terminated(), "[C17] is_terminated() is false from creation");
+    assert!(f.wait_node.state == PollState::Unregistered && f.wait_node.task.is_none() && f.wait_node.expiry == ts, "[C15] a new timer future has exactly the requested deadline and is not registered (so it does not count for next_expiration())");
+    assert!(svc.next_expiration().is_none(), "[C15] next_expiration() is None while nothing is registered");
     core::mem::forget(f);
 }
 
